@@ -729,6 +729,11 @@ func isCommonWord(word string) bool {
 
 // SearchWithNLP performs natural language search with advanced query processing
 func (db *Database) SearchWithNLP(query string, options SearchOptions) []SearchResult {
+	if options.Limit <= 0 {
+		options.Limit = constants.DefaultSearchLimit
+	}
+	options.Limit = capLimit(options.Limit, len(db.Commands))
+
 	if !options.UseNLP {
 		// Fall back to regular search if NLP is disabled
 		return db.SearchWithFuzzy(query, options)
